@@ -73,6 +73,24 @@ def _cap(*a, **k):
     return a, k
 
 
+def as_call(sig):
+    """argument list that hands the same-named variables to a function of this signature (Python's inspect decides
+    which parameter is of which kind)"""
+    import inspect
+
+    out = []
+    for p in inspect.signature(binder(sig)).parameters.values():
+        if p.kind == p.VAR_POSITIONAL:
+            out.append("*" + p.name)
+        elif p.kind == p.KEYWORD_ONLY:
+            out.append("%s=%s" % (p.name, p.name))
+        elif p.kind == p.VAR_KEYWORD:
+            out.append("**" + p.name)
+        else:
+            out.append(p.name)
+    return ", ".join(out)
+
+
 class Ref:
     def __init__(self, prog, calldef_caller="own", calldef_leak=False):
         from mc.c05_ir import CFGS
@@ -126,7 +144,24 @@ class Ref:
             setattr(ns, d["name"], fn)
             base[d["name"]] = fn
         self.base = base
-        self.block(self.prog["body"], base)
+        body_env = base
+        if self.prog.get("page") is not None:
+            # <%page args>: the body is a function (sig, **pageargs) called with render()'s positional arguments and
+            # all of its keyword arguments (which are the context values as well)
+            pos, kw = self.ev("__cap(%s)" % self.prog.get("render_args", ""), {"__cap": _cap})
+            data = dict(self.prog["ctx"])
+            data.update(kw)
+            body_env = dict(base)
+            body_env.update(data)
+            bound = binder(self.prog["page"] + ", **pageargs")(*pos, **data)
+            bound.pop("pageargs", None)
+            body_env.update(bound)
+        for s in self.prog["body"]:
+            if s[0] == "nblock":
+                # a named block is a member of the template's namespace, a top-level callable (sig, **pageargs)
+                d = {"name": s[1], "sig": s[2] + ", **pageargs", "buffered": False, "filters": [], "deco": False, "defs": [], "body": s[3]}
+                setattr(ns, s[1], self.make_def(d, base))
+        self.block(self.prog["body"], body_env)
         assert len(self.bufs) == 1
         return "".join(self.bufs[0])
 
@@ -202,6 +237,10 @@ class Ref:
                 for n in s[1]:
                     content = c05_env.FILTERS[n](content)
                 self.write(content)
+            elif k == "nblock":
+                # rendered in place with the same-named variables of the body as its arguments
+                a, kw = self.ev("__cap(%s)" % as_call(s[2]), dict(env, __cap=_cap))
+                getattr(env["self"], s[1])(*a, **kw)
             elif k == "call":
                 self.call(s, env)
             else:
